@@ -6,7 +6,7 @@ transition drawn from {h, d, s, g, _period} with <= 3 entries (86) x T in {1,2,3
 template returned by the real code is compared with the documented contract.
 Routing clause (E1): for every model of the routing family every leaf of the template is
 perturbed ALONE (all other leaves at pairwise distinct base values), every row of every
-shock array is perturbed alone, beta in {0, 0.5, 0.95, 1}; lcm's solution must equal the
+shock array is perturbed alone, beta in {0, 0.5, 0.95, 1, 1.04, 1.25}; lcm's solution must equal the
 reference (which routes by function name by construction) under every valuation.
 """
 from __future__ import annotations
@@ -34,7 +34,7 @@ TFUNCS = ["utility", "inc", "c_constraint", "next_s", "next_w"]
 
 
 def BOUND(tier):
-    return {"param_name_sets": "all 4^5 assignments of subsets of {a,b} to (utility, auxiliary, constraint, discrete next, continuous next)", "dependency_lists": "all ordered subsets of {h,d,s,g,_period} with <= 3 entries", "T": [1, 2, 3], "betas": [0, 0.5, 0.95, 1]}
+    return {"param_name_sets": "all 4^5 assignments of subsets of {a,b} to (utility, auxiliary, constraint, discrete next, continuous next)", "dependency_lists": "all ordered subsets of {h,d,s,g,_period} with <= 3 entries", "T": [1, 2, 3], "betas": [0, 0.5, 0.95, 1, 1.04, 1.25]}
 
 
 def dep_lists():
@@ -75,6 +75,8 @@ def cases(tier, seed):
     out.append({"id": "routing-shared-callable", "kind": "routing", "fv": dict(family.BASE), "seed": seed, "sim": True, "shared_callable": True})
     # a KEYWORD-ONLY parameter with a Python default: it is a parameter like any other (template + routing)
     out.append({"id": "routing-keyword-only-parameter", "kind": "routing", "fv": dict(family.BASE), "seed": seed, "sim": True, "shared_callable": True, "kwonly": True})
+    # a constraint whose argument is the output of a transition function (next_w): a model function, never a parameter
+    out.append({"id": "routing-transition-output-as-argument", "kind": "routing", "fv": dict(family.BASE), "seed": seed, "sim": True, "shared_callable": True, "nextarg": True})
     seen, uniq = set(), []
     for c in out:  # explicit members may also be members of Family_2 in the thorough tier
         if c["id"] not in seen:
@@ -173,7 +175,7 @@ def _run_routing(case):
     if not b.valid:
         return outcome(status="skipped", skip_reason="invalid-combo", nontrivial=False)
     if case.get("shared_callable"):
-        b = _shared_callable_model(case["seed"], kwonly=bool(case.get("kwonly")))
+        b = _shared_callable_model(case["seed"], kwonly=bool(case.get("kwonly")), nextarg=bool(case.get("nextarg")))
     base = b.params("perturbed", 0.9)  # pairwise distinct leaves
     leaves = [(f, p) for f in b.P for p in b.P[f]]
     viols, states, traces, dig = [], 0, 0, []
@@ -202,7 +204,7 @@ def _run_routing(case):
             v["shocks"] = dict(base["shocks"])
             v["shocks"][s] = jnp.asarray(a2)
             valuations.append((f"shock row {s}{list(row)}", v))
-    for beta in (0.0, 0.5, 0.95, 1.0):
+    for beta in (0.0, 0.5, 0.95, 1.0, 1.04, 1.25):  # lcm places no restriction on beta
         v = dict(base)
         v["beta"] = beta
         valuations.append((f"beta={beta}", v))
@@ -249,7 +251,7 @@ class _Shared:
 
     valid = True
 
-    def __init__(self, seed, kwonly=False):
+    def __init__(self, seed, kwonly=False, nextarg=False):
         self.seed = seed
         usig = "s, w, d, c, inc, bonus, *, a=0.25" if kwonly else "s, w, d, c, inc, bonus, a"
         src = (
@@ -260,13 +262,18 @@ class _Shared:
             "def next_s(s, d):\n    return jnp.clip(s + d, 0, 2)\n\n"
             "def next_w(w, c, d, drift, factor):\n    return (w - c) + 1.0 + 0.25 * d + 0.1 * drift + 0.01 * factor\n"
         )
+        if nextarg:  # a constraint that takes the OUTPUT of a transition function (a model function, not a parameter)
+            src += "\ndef floor_constraint(next_w, factor, floor):\n    return next_w >= 0.5 * floor + 0.55 + 0.01 * factor\n"
         self.text = family.PRELUDE + src + (
             "\n\nMODEL = Model(n_periods=3,\n    functions={'utility': utility, 'inc': scaled, 'bonus': scaled, 'drift': scaled, "
-            "'c_constraint': c_constraint, 'sd_filter': sd_filter, 'next_s': next_s, 'next_w': next_w},\n"
+            "'c_constraint': c_constraint, 'sd_filter': sd_filter, 'next_s': next_s, 'next_w': next_w"
+            + (", 'floor_constraint': floor_constraint" if nextarg else "") + "},\n"
             "    choices={'d': D(2), 'c': Lin(0.5, 3.0, 6)},\n    states={'s': D(3), 'w': Lin(1, 5, 5)})\n"
         )
         self.model = family.exec_model(self.text)
         self.P = {"utility": {"a": 1.3}, "inc": {"factor": 1.9}, "bonus": {"factor": 0.7}, "drift": {"factor": -0.4}, "c_constraint": {}, "sd_filter": {}, "next_s": {}, "next_w": {"factor": 2.5}}
+        if nextarg:
+            self.P["floor_constraint"] = {"factor": 3.1, "floor": 0.68}
         self.shocks = {}
         self.fv = dict(family.BASE)
 
@@ -274,8 +281,8 @@ class _Shared:
         return e1.gen_params(self.P, self.shocks, self.seed, variant, beta)
 
 
-def _shared_callable_model(seed, kwonly=False):
-    return _Shared(seed, kwonly)
+def _shared_callable_model(seed, kwonly=False, nextarg=False):
+    return _Shared(seed, kwonly, nextarg)
 
 
 def run_case(case):
